@@ -34,7 +34,8 @@ LEVEL_NOTE = 'trusted: C01 frame oracle, fault condition matcher, world rebuild 
 
 def gen(rng):
     L = G.make_layout(rng, nvol=rng.choice([0, 1, 2]), trash_states=[rng.choice(['absent', 'sticky'])] * 3,
-                      alt_states=[rng.choice(['absent', 'dir'])] * 3, xdg='unset', nested=False)
+                      alt_states=[rng.choice(['absent', 'dir'])] * 3, xdg='unset', nested=False,
+                      homename=rng.choice(G.ODD_HOMES) if rng.random() < 0.12 else 'u')
     steps = L['steps']
     home, uid, env = L['home'], L['uid'], dict(L['env'])
     n = rng.choice([1, 2, 3, 3, 4, 5, 6])
